@@ -61,6 +61,13 @@ def instantiate(ev, name, node, st):
         hyp = z3.And(zint(lo) <= zint(k0), zint(k0) < zint(hi),
                      z3.ForAll([k], z3.Implies(z3.And(k >= lo, k < hi, k != zint(k0)), zint(f(k)) == zint(g(k)))))
         return z3.Implies(hyp, G(zint(hi)) - F(zint(hi)) == zint(g(k0)) - zint(f(k0)))
+    if name == "lemma_sum_incr":
+        # terms in [0,1]: lo <= mid <= hi ==> 0 <= S(hi) - S(mid) <= hi - mid
+        lo, hi, ((F, f),) = _sum_terms(ev, node, st, 1)
+        mid = as_int(ev.eval(node.args[4], st))
+        k = z3.Int(fresh_name("k"))
+        hyp = z3.And(zint(lo) <= zint(mid), zint(mid) <= zint(hi), z3.ForAll([k], z3.Implies(z3.And(k >= lo, k < hi), z3.And(zint(f(k)) >= 0, zint(f(k)) <= 1))))
+        return z3.Implies(hyp, z3.And(F(zint(hi)) - F(zint(mid)) >= 0, F(zint(hi)) - F(zint(mid)) <= zint(hi) - zint(mid)))
     if name == "lemma_sum_zero":
         # non-negative terms: S(hi) >= 0, and S(hi) == 0 ==> every term is 0
         lo, hi, ((F, f),) = _sum_terms(ev, node, st, 1)
@@ -104,6 +111,12 @@ def prove_library(prover):
 
     out.append(("lemma_sum_split.base",) + prover.check_valid(defs, M(mid))[::2])
     out.append(("lemma_sum_split.step",) + prover.check_valid(defs + [h >= mid, mid >= lo, M(h)], M(h + 1))[::2])
+    def I(x):
+        hyp = z3.And(lo <= mid, mid <= x, z3.ForAll([k], z3.Implies(z3.And(k >= lo, k < x), z3.And(f(k) >= 0, f(k) <= 1))))
+        return z3.Implies(hyp, z3.And(F(x) - F(mid) >= 0, F(x) - F(mid) <= x - mid))
+
+    out.append(("lemma_sum_incr.base",) + prover.check_valid(defs, I(mid))[::2])
+    out.append(("lemma_sum_incr.step",) + prover.check_valid(defs + [h >= mid, mid >= lo, I(h)], I(h + 1))[::2])
     k0 = z3.Int("lk0")
 
     def D1(x):
